@@ -6,3 +6,17 @@ pub mod props;
 pub mod sched;
 pub mod spec;
 pub mod traits;
+
+#[cfg(not(feature = "std"))]
+use critical_section as _;
+
+/// Name of the unimock feature set this binary was built with.
+pub fn variant() -> &'static str {
+    if cfg!(feature = "std") {
+        "std"
+    } else if cfg!(feature = "nostd-spin") {
+        "nostd-spin"
+    } else {
+        "nostd-nomutex"
+    }
+}
